@@ -6,9 +6,10 @@ CONSTANTS
     CapAtBlobSize = TRUE
     BgAllFiles = TRUE
     WaitHonoursTimeout = TRUE
+    ThresholdOnEffective = TRUE
     AllowReg = TRUE
 SPECIFICATION TraceSpec
 CONSTRAINT HighWater
-INVARIANTS AfterPrefetchPrioritizedReadsAreLocal NoPrefetchLandmarkNoTraffic ConfiguredSizeCapped PrefetchTrafficConfined AfterBackgroundFetchOfflineReadable WaiterClosedAtEnd WaitResult
+INVARIANTS AfterPrefetchPrioritizedReadsAreLocal NoPrefetchLandmarkNoTraffic ConfiguredSizeCapped PrefetchTrafficConfined AfterBackgroundFetchOfflineReadable WaiterClosedAtEnd WaitNilOnlyIfEndedOrAsync WaitResult
 POSTCONDITION TraceAccepted
 CHECK_DEADLOCK FALSE
